@@ -199,7 +199,7 @@ def run_length(spec, res):
                     else:
                         res['refuted'] += 1
                         if eng.check3() == 'sat':
-                            res['cex'].append({'kind': 'construct', 'payload': d.payload_from_model(eng.solver.model()).hex(),
+                            res['cex'].append({'kind': 'construct', 'payload': d.payload_from_model(eng.model()).hex(),
                                                'checks': ['decodable' if want == 'accept' else 'overrun'], 'ident': ident,
                                                'why': f"{ident} {st}: payload of {L} bytes is {got}ed, the standard length is {S} bits", 'dedup': f"lenrun:{ident}:{want}"})
                 res.absorb_engine(eng)
